@@ -11,6 +11,7 @@
 #include "hdf5/h5x/H5DataType.hpp"
 
 #include <cstring>
+#include <stdexcept>
 
 using namespace nix;
 
@@ -29,6 +30,10 @@ void DataArray::ioRead(DataType dtype, void *data, const NDSize &count, const ND
     boost::optional<double> opt_origin = expansionOrigin();
 
     if (poly.size() || opt_origin) {
+        if (!(data_type_is_numeric(dtype) || dtype == DataType::Bool)) {
+            // the calibrated values are doubles converted in place: a buffer of std::string (or opaque) elements would be overwritten
+            throw std::invalid_argument("DataArray: calibrated data (polynom / expansion origin) can only be read as a numeric type");
+        }
         size_t data_esize = data_type_to_size(dtype);
         size_t nelms = check::fits_in_size_t(count.nelms(),
 			"Cannot apply polynom or origin transform. Buffer needed exceeds memory.");
